@@ -626,6 +626,100 @@ def run(ck):
                 ok = any(x.state == State.ESTABLISHED and str(x.peer_addr) == P2A for x in hub.ctl.ike_sas)
                 if typ != 'NEWSA' and not ok:
                     ck.violation(f'other-peer-not-served:persistent-{typ}-refusal', {'hub': [(x.state.name, str(x.peer_addr)) for x in hub.ctl.ike_sas]}, sim.case)
+    # ---- a peer VANISHES after the k-th delivered datagram of a history (every k): whatever state its IKE_SAs are left in at the hub, the hub's timers for the
+    # OTHER peer keep running: with that peer silent too, the hub starts its DPD probe on time (only the hub is stepped from then on)
+    def vanish(name, k, order):
+        sim, hub, (p1, p2) = S.make_star(base + 123, peers=2, dpd=15)
+        sim.case = {'peer_vanishes_after_delivery': k, 'history': name, 'order': order}
+        died = []
+        sim.monitors.append(lambda s_, ep, rec: died.append(rec) if (rec.died and ep is hub) else None)
+        st = {'n': 0}
+
+        def drain_cut():
+            guard = 0
+            while sim.net and guard < 300:
+                guard += 1
+                d = sim.net[0]
+                if st['n'] >= k and P1A in (d.src, d.dst):
+                    sim.net.pop(0)
+                    continue
+                if P1A in (d.src, d.dst):
+                    st['n'] += 1
+                sim.deliver(0)
+        if order == 'other-peer-first':
+            sim.acquire(p2, 0, sport=6400)
+            drain_cut()
+        for a in scripts[name]:
+            if st['n'] >= k:
+                break
+            if a == 'acq1':
+                sim.acquire(p1, 0, sport=6200)
+            elif a == 'acqhub':
+                sim.acquire(hub, 0, dport=6300)
+            elif a == 'drain':
+                drain_cut()
+            elif a in ('soft1', 'hard1'):
+                sas = [x for x in p1.ctl.ike_sas if x.child_sas and x.state == State.ESTABLISHED]
+                if sas:
+                    sim.expire(p1, bytes(sas[0].child_sas[0].inbound_spi), a == 'hard1', daddr=P1A)
+            elif a == 'softhub':
+                sas = [x for x in hub.ctl.ike_sas if x.child_sas and x.state == State.ESTABLISHED and str(x.peer_addr) == P1A]
+                if sas:
+                    sim.expire(hub, bytes(sas[0].child_sas[0].inbound_spi), False, daddr=HUB)
+            elif a in ('ikerekey1', 'ikerekeyhub', 'dpdhub'):
+                ep = p1 if a.endswith('1') else hub
+                sas = [x for x in ep.ctl.ike_sas if x.state == State.ESTABLISHED and (ep is p1 or str(x.peer_addr) == P1A)]
+                if sas:
+                    if a.startswith('dpd'):
+                        sas[0].start_dpd_at = sim.clock.t - 1
+                    else:
+                        sas[0].rekey_ike_sa_at = sim.clock.t - 1
+                    ep.step('tick')
+        drain_cut()
+        reached = st['n'] >= k
+        st['n'] = max(st['n'], k)             # from here on P1 is gone whatever happened
+        if order == 'other-peer-last':
+            sim.acquire(p2, 0, sport=6400)
+            drain_cut()
+        sa2 = next((x for x in hub.ctl.ike_sas if str(x.peer_addr) == P2A and x.state == State.ESTABLISHED), None)
+        if sa2 is None:
+            ck.count('vanish.other_peer_not_established')
+            return reached
+        due = sa2.start_dpd_at
+        probe_at = None
+        states_seen = set()
+        for _ in range(60):
+            sim.clock.advance(1.0)
+            hub.step('tick')
+            states_seen |= {x.state.name for x in hub.ctl.ike_sas if str(x.peer_addr) == P1A}
+            for d in list(sim.net):
+                if d.dst == P2A and d.data[18] == 37 and not d.data[19] & 0x20 and probe_at is None:
+                    probe_at = sim.clock.t
+            sim.net.clear()
+            if died or probe_at is not None:
+                break
+        ck.count('vanish.runs')
+        for s_ in states_seen:
+            ck.seen('vanish.states_of_the_vanished_peers_ike_sas', s_)
+        ck.nontrivial(('vanish', name, k, order, tuple(sorted(states_seen))))
+        if died:
+            ck.violation(f'loop-terminated-or-spinning:{type(died[0].exc).__name__}:after-a-peer-vanished', {'exc': repr(died[0].exc)[:200], 'states_of_its_ike_sas': sorted(states_seen)}, sim.case)
+        elif probe_at is None or probe_at > due + 3.0:
+            ck.violation('timer-driven-service-dead:dpd-for-the-other-peer-not-started-on-time:after-a-peer-vanished',
+                         {'due_at': due, 'probe_at': probe_at, 'states_of_the_vanished_peers_ike_sas': sorted(states_seen), 'errors': [str(e)[:120] for e in S.W.internal_errors][-2:]}, sim.case)
+        else:
+            ck.count('vanish.other_peer_probed_on_time')
+        return reached
+    for name in scripts:
+        for order in ('other-peer-first', 'other-peer-last'):
+            for k in range(0, 40):
+                n += 1
+                mine_ = ck.mine(n)
+                if not mine_:
+                    # the bound of k depends on the history: stop where a run of this shard would (cheap: every history has fewer than 40 deliveries)
+                    continue
+                if not vanish(name, k, order):
+                    pass
     # ---- transmissions towards ONE peer fail persistently (its link is down, a queue that never drains): every kind of errno, while that peer is in the
     # middle of a handshake / an exchange. The loop must keep coming back to select() and serve the other peer (replies and timers)
     for ei, err in enumerate([105, 11, 101, 113, 1, 90, 12]):            # ENOBUFS EAGAIN ENETUNREACH EHOSTUNREACH EPERM EMSGSIZE ENOMEM
@@ -732,5 +826,7 @@ def verdict(ck):
     ck.floor('persistent kernel refusal runs with live timer service', c['persistent.timer_service_alive'], 20)
     ck.floor('runs with a persistent transmission failure towards one peer after which the other was served', c['persistent_send_failure.other_peer_served'], 10)
     ck.floor('IKE_AUTH requests with unusual identities after which the other peer was served', c['unusual_identity.other_peer_served'], 80)
+    ck.floor('histories cut at a delivery after which the other peer was still probed on time', c['vanish.other_peer_probed_on_time'], 80)
+    ck.floor('states in which the vanished peer left its IKE_SAs at the hub', len(ck.sets['vanish.states_of_the_vanished_peers_ike_sas']), 5)
     ck.floor('phases', len(ck.sets['phases']), 5)
     return None
